@@ -311,8 +311,16 @@ def run_c08(obj, case):
                     o2 = outcome(lambda: build(other, gm))
                     if o2 != r["ctor"]:
                         r["ctor"] = "class=%s/parse=%s" % (r["ctor"], o2)
+            # the same with a language marking instead of a marking_ref
+            gl = {"selectors": sel_list, "lang": "en"}
+            r["ctor_lang"] = outcome(lambda: build(case["build"], gl))
+            if case["build"]["how"] == "class" and "type" in case["build"]["data"]:
+                o3 = outcome(lambda: build(other, gl))
+                if o3 != r["ctor_lang"]:
+                    r["ctor_lang"] = "class=%s/parse=%s" % (r["ctor_lang"], o3)
         else:
             r["ctor"] = "n/a"
+            r["ctor_lang"] = "n/a"
         out.append(r)
     return out
 
